@@ -17,6 +17,7 @@ class IterSrc:
         self.plain_seq = plain_seq  # seq term if the target is a single name iterating a sequence of V
         self.ety = ety
         self.key_map = key_map      # for dict .items(): the map term
+        self.range_var = None
 
 
 def target_names(t):
@@ -60,7 +61,10 @@ def iter_source(fv, target, it, st, spec):
             out = {}
             bind_target(fv, st, target, SV(lo + i, INT), out)
             return out
-        return IterSrc(length, bind)
+        src = IterSrc(length, bind)
+        if isinstance(target, ast.Name):
+            src.range_var = (target.id, lo, hi)      # quantified contexts bind the value itself
+        return src
     if isinstance(it, ast.Call) and isinstance(it.func, ast.Name) and it.func.id == 'enumerate':
         inner = iter_source(fv, target.elts[1], it.args[0], st, spec)
 
@@ -85,7 +89,7 @@ def iter_source(fv, target, it, st, spec):
         return IterSrc(length, bind)
     if isinstance(it, ast.Call) and isinstance(it.func, ast.Attribute) and it.func.attr in ('items', 'values', 'keys') \
             and not it.args:
-        m = fv.ev(it.func.value, st, spec)
+        m = fv.pattern_safe(st, fv.ev(it.func.value, st, spec))
         mt = m.ty
         if mt.is_opt:
             fv.safety(st, 'none-deref', m.term != P.none, it, spec)
@@ -109,7 +113,7 @@ def iter_source(fv, target, it, st, spec):
                 return out
             return IterSrc(P.slen(ks), bind, plain_seq=ks if kind != 'values' else None,
                            ety=kty, key_map=m.term if kind == 'items' else None)
-    v = fv.ev(it, st, spec)
+    v = fv.pattern_safe(st, fv.ev(it, st, spec))
     seq, ety = fv.iter_seq(v, it, st, spec)
     if not spec:
         fv.note_term(st, seq)
@@ -141,8 +145,13 @@ def quantify_comp(fv, comp, st, spec, is_all):
         g = gens[k]
         src = iter_source(fv, g.target, g.iter, st, spec)
         i = z3.Int('i!g%d' % next(fv.E.counter))
-        binds = src.bind(i)
-        rng = z3.And(0 <= i, i < src.length)
+        if src.range_var is not None:
+            nm, lo, hi = src.range_var
+            binds = {nm: SV(i, INT)}
+            rng = z3.And(lo <= i, i < hi)
+        else:
+            binds = src.bind(i)
+            rng = z3.And(0 <= i, i < src.length)
         tf = elem_typed_facts(fv, binds)
         guard = z3.And(rng, *tf) if tf else rng
         fv.bound_env.append(binds)
@@ -220,7 +229,7 @@ def eval_comp(fv, node, st, spec, kind):
         if not g.ifs:
             facts.append(P.slen(r) == L)
             facts.append(z3.ForAll([i], z3.Implies(z3.And(0 <= i, i < L), P.at(r, i) == box(elt_i)),
-                                   patterns=[P.at(r, i)]))
+                                   patterns=[P.at(r, i)] + ([P.at(src.plain_seq, i)] if src.plain_seq is not None else [])))
         else:
             cm = z3.Function('cm!%d' % n, z3.IntSort(), z3.IntSort())
             ci = z3.Function('ci!%d' % n, z3.IntSort(), z3.IntSort())
@@ -326,13 +335,7 @@ def eval_comp(fv, node, st, spec, kind):
         if not g.ifs:
             facts.append(z3.Implies(P.nodup(src.plain_seq), ks == src.plain_seq))
         else:
-            cm = z3.Function('cm!%d' % n, z3.IntSort(), z3.IntSort())
-            facts.append(z3.Implies(P.nodup(src.plain_seq), z3.And(
-                z3.ForAll([j], z3.Implies(z3.And(0 <= j, j < P.slen(ks)),
-                                          z3.And(0 <= cm(j), cm(j) < L, P.at(ks, j) == P.at(src.plain_seq, cm(j)))),
-                          patterns=[P.at(ks, j)]),
-                z3.ForAll([j, j2], z3.Implies(z3.And(0 <= j, j < j2, j2 < P.slen(ks)), cm(j) < cm(j2)),
-                          patterns=[z3.MultiPattern(cm(j), cm(j2))]))))
+            facts.append(z3.Implies(P.nodup(src.plain_seq), ks == P.restrict(src.plain_seq, r)))
         facts.extend(fv.deep_facts(r, T.Map(kty, val.ty)))
         for f in facts:
             fv.add_fact(st, f)
